@@ -169,7 +169,32 @@ func VH_Tokens() {
 		case 'D':
 			line += "-D"
 		default:
-			line += "-" + string([]byte{k}) + " '" + arg + "'"
+			// how the argument is written: in single quotes (exact for every byte but the quote itself),
+			// or - parameter "quoting" - bare or in double quotes, for the arguments that can be written so
+			q := 0
+			if vParam("quoting", 0) != 0 && (k == 'F' || k == 'C' || k == 'S' || k == 'k' || k == 'w' || k == 'p') {
+				q = vChoose("quoting", 3)
+			}
+			if q != 0 {
+				for j := 0; j < len(arg); j++ {
+					c := arg[j]
+					vAssume(vAnd(vAnd(c != '"', c != '\\'), vAnd(c != '$', c != '`')))
+					if q == 1 {
+						vAssume(vAnd(c > ' ', c < 0x7f))
+					}
+				}
+				if q == 1 {
+					vAssume(len(arg) > 0)
+				}
+			}
+			switch q {
+			case 0:
+				line += "-" + string([]byte{k}) + " '" + arg + "'"
+			case 1:
+				line += "-" + string([]byte{k}) + " " + arg
+			case 2:
+				line += "-" + string([]byte{k}) + " \"" + arg + "\""
+			}
 		}
 	}
 	r, err := Parse(line)
